@@ -1,8 +1,13 @@
 """C02 — catalogue metadata is reported exactly as encoded."""
+import re
+
 import vlib
+from gen import discs
+from props import common
 
 LEAN_MODULE = 'Beeb.Props.C02'
-LEAVES = ['metadata_byte', 'metadata_word', 'load_address', 'exec_address', 'file_length', 'start_sector',
+LEAN_MODULES = ['Beeb.Props.C02', 'Beeb.Props.C02b']
+LEAVES = ['crc_cycle', 'metadata_byte', 'metadata_word', 'load_address', 'exec_address', 'file_length', 'start_sector',
           'directory', 'is_locked', 'sign_extend', 'byte_to_ascii7']
 RULE = ('raw 16-byte catalogue entries: every value of the mixed high-bits byte x random low words, '
         'boundary words (0, FFFF, 8000..), names over all byte values incl. NUL/space/top-bit; a case is '
@@ -67,6 +72,140 @@ def run(ctx):
         elif impl != m:
             ctx.disagree('fields', '%s: impl [%s] model [%s]' % (rq.split()[1], impl, m), {'request': rq, 'impl': impl, 'model': m})
     ctx.pair('fields', reqs2, cmp_fields)
+    run_e2e(ctx)
+
+
+def crc_xmodem(data):
+    crc = 0
+    for b in data:
+        crc ^= b << 8
+        for _ in range(8):
+            crc = ((crc << 1) ^ 0x1021) & 0xFFFF if crc & 0x8000 else (crc << 1) & 0xFFFF
+    return crc
+
+
+def sign_ext(a):
+    return a | 0xFC0000 if a & 0x20000 else a
+
+
+def lower(c):
+    return c + 32 if 65 <= c <= 90 else c
+
+
+def cat_order(files, curdir):
+    def key(f):
+        return (0 if f.dir == curdir else lower(f.dir), bytes(map(lower, f.shown_name())))
+    return sorted(files, key=key)
+
+
+def run_e2e(ctx):
+    """cat (all ui styles, --dir), show-titles, extract-files .inf on generated catalogues"""
+    r = ctx.rng
+    impl = ctx.build('asan')
+    cases = []
+    n = 24 if ctx.tier == 'quick' else 300
+    for k in range(n):
+        d = discs.gen_disc(r, max_files=r.choice([None, 5, 12]))
+        # titles exercising 12 characters, NUL termination, top bits, trailing spaces
+        for (label, origin, vlen, cats) in d.volumes():
+            t = bytearray(r.choice([b'', b'ABCDEFGHIJKL', b'TITLE   ', b'EIGHTCHR', b'NINE CHRS', b'A', b'end  sp  ']))
+            if t and r.chance(1, 4):
+                t[r.below(len(t))] |= 0x80
+            cats[0].title = bytes(t)
+            cats[0].cycle = r.choice([0, 1, 0x42, 0x99, 0xAB])
+            cats[0].opt = r.below(4)
+            for c in cats:
+                c.files = [f for f in c.files if f.shown_name() not in (b'L',)]
+        img = d.encode(discs.filler(r))
+        name = 'd' + d.extension()
+        for (label, origin, vlen, cats) in d.volumes():
+            files = [f for c in cats for f in c.files]
+            drive = '0%s' % (label or '')
+            dirs = sorted(set(f.dir for f in files)) or [0x24]
+            for ui in (None, 'acorn', 'watford', 'opus'):
+                cd = r.choice(dirs + [0x24, 0x24])
+                argv = ['--file', '@' + name] + (['--ui', ui] if ui else []) + ['--dir', chr(cd), 'cat', drive]
+                cases.append(vlib.Case('d%d' % k, {name: img}, argv, meta={'kind': 'cat', 'files': files, 'cat': cats[0], 'd': d, 'ui': ui, 'dir': cd, 'label': label}))
+            cases.append(vlib.Case('d%d' % k, {name: img}, ['--file', '@' + name, '--drive', drive, '--dir', chr(r.choice(dirs)), 'extract-files', '@out'], dest='out',
+                                   meta={'kind': 'inf', 'files': files, 'd': d}))
+        cases.append(vlib.Case('d%d' % k, {name: img}, ['--file', '@' + name, 'show-titles'], meta={'kind': 'titles', 'd': d}))
+    vlib.run_cases(cases, impl['dfs'])
+    for c in cases:
+        common.compare_model(ctx, c, 'e2e-' + c.meta['kind'])
+        m = c.meta
+        i = c.impl
+        ctx.oracle_cases += 1
+        ctx.count('e2e.' + m['kind'])
+        ctx.case((c.tag, tuple(c.real_argv[2:])), True, sample={'argv': [a.decode('latin-1') for a in c.real_argv[2:]]} if m['kind'] == 'cat' else None)
+        if common.crash_violation(ctx, c):
+            continue
+        if m['kind'] == 'cat':
+            files = m['files']
+            out = i['out']
+            if i['exit'] != 0:
+                ctx.violation('cat-failed', 'cat failed on a well-formed disc (exit %d)' % i['exit'], common.replay_of(c))
+                continue
+            lines = out.split(b'\n')
+            title = bytes(b & 0x7F for b in m['cat'].title.split(b'\0')[0][:12]).rstrip(b' ')
+            head = lines[0].strip(b' ') if lines else b''
+            if not head.startswith(title):
+                ctx.violation('cat-title', 'cat shows title %r, catalogue title is %r' % (head[:14], title), common.replay_of(c))
+            mm = re.search(rb'\(([0-9a-fA-F]{2})\)', lines[0] if lines else b'')
+            if not mm or int(mm.group(1), 16) != m['cat'].cycle:
+                ctx.violation('cat-cycle', 'cat shows cycle %r, catalogue says %02x' % (mm.group(1) if mm else None, m['cat'].cycle), common.replay_of(c))
+            if (b'Option %d (' % m['cat'].opt) not in out:
+                ctx.violation('cat-option', 'cat does not show boot option %d' % m['cat'].opt, common.replay_of(c))
+            dd = m['d'].spt != 10
+            want_density = (b'MFM' if dd else b'FM') if (m['ui'] in (None, 'acorn') and not (m['ui'] is None and m['d'].variant in ('wdfs', 'opus'))) else (b'Double density' if dd else b'Single density')
+            if want_density not in b'\n'.join(lines[:2]):
+                ctx.violation('cat-density', 'cat does not show density %r' % want_density, common.replay_of(c))
+            # the listing starts after the blank line that follows the Dir/Lib line
+            try:
+                start = next(j for j, l in enumerate(lines) if b' :0' in l and (b'Dir' in l)) + 2
+            except StopIteration:
+                ctx.violation('cat-layout', 'cannot find the directory line in cat output', common.replay_of(c))
+                continue
+            toks = b' '.join(lines[start:]).split()
+            if toks and toks[-1] == b'file' and len(toks) >= 2 and toks[-2] == b'No':
+                toks = toks[:-2]
+            if m['ui'] == 'watford' or (m['ui'] is None and m['d'].variant == 'wdfs'):
+                # footer "NN files of MM on TT tracks"
+                if len(toks) >= 7 and toks[-6] == b'files':
+                    toks = toks[:-7]
+            shown = []
+            for t in toks:
+                if t == b'L' and shown:
+                    shown[-1] = (shown[-1][0], True)
+                else:
+                    shown.append((t, False))
+            want = []
+            for f in cat_order(files, m['dir']):
+                nm = f.shown_name() if f.dir == m['dir'] else bytes([f.dir]) + b'.' + f.shown_name()
+                want.append((nm, f.locked))
+            if sorted(shown) != sorted(want):
+                ctx.violation('cat-files', 'cat (--ui %s --dir %s) lists %d entries %s…, the catalogue has %d %s…' % (m['ui'], chr(m['dir']), len(shown), sorted(shown)[:4], len(want), sorted(want)[:4]), common.replay_of(c))
+            elif shown != want:
+                k2 = next(j for j in range(len(want)) if shown[j] != want[j])
+                ctx.violation('cat-order', 'cat (--ui %s --dir %s) order differs at position %d: shows %s, documented order has %s' % (m['ui'], chr(m['dir']), k2, shown[k2:k2 + 3], want[k2:k2 + 3]), common.replay_of(c))
+        elif m['kind'] == 'titles':
+            want = b''
+            for (label, origin, vlen, cats) in m['d'].volumes():
+                t = bytes(b & 0x7F for b in cats[0].title.split(b'\0')[0][:12]).rstrip(b' ')
+                want += b'0%s: %s\n' % ((label or '').encode(), t)
+            if i['exit'] != 0 or i['out'] != want:
+                ctx.violation('show-titles', 'show-titles printed %r, catalogue titles are %r' % (i['out'][:80], want[:80]), common.replay_of(c))
+        else:
+            safe = all(b'/' not in f.shown_name() and f.dir != 0x2F for f in m['files'])
+            if not safe:
+                continue
+            infs = {k.split(b'/')[-1]: v for k, v in i['files'].items() if k.endswith(b'.inf')}
+            for f in m['files']:
+                nm = bytes([f.dir]) + b'.' + f.shown_name()
+                want = nm + b' %06X %06X %06X %sCRC=%04X\n' % (sign_ext(f.load), sign_ext(f.exec), f.length, b'Locked ' if f.locked else b'', crc_xmodem(f.body))
+                got = [v for k, v in infs.items() if v.startswith(nm + b' ')]
+                if want not in got:
+                    ctx.violation('inf-content', '.inf for %r is %r, expected %r' % (nm, got[:1], want), common.replay_of(c))
+                    break
 
 
 def replay(ctx, rp):
